@@ -404,3 +404,34 @@ def len_vs_const(e: ast.AST, is_len: Callable[[str], bool]):
         return _MIRROR[type(e.ops[0])](), l.value
     return None
 
+
+def isinstance_excludes(eng, fn: FunctionInfo, node: ast.AST, carriers) -> Optional[str]:
+    """some `isinstance(x, C)` test controls `node` (node is unreachable unless the test is true) and C's class family does not
+    contain every class in `carriers` -> text naming the test and the excluded classes; else None"""
+    from ..cfg import cfg_of
+    from ..program import ClassInfo as _CI
+    cfg = cfg_of(fn)
+    xn = cfg.node_of(node)
+    if xn is None:
+        return None
+    for t in cfg.nodes:
+        if t.kind != "test" or not (isinstance(t.ast, ast.Call) and isinstance(t.ast.func, ast.Name) and t.ast.func.id == "isinstance" and len(t.ast.args) == 2):
+            continue
+        if xn in cfg.reachable(cfg.entry, edge_filter=lambda a, b, lab, _t=t: not (a is _t and lab == "true")):
+            continue
+        tys = t.ast.args[1].elts if isinstance(t.ast.args[1], ast.Tuple) else [t.ast.args[1]]
+        fam = set()
+        for ty in tys:
+            r = eng.cg.resolve_name(fn, ty.id) if isinstance(ty, ast.Name) else None
+            if isinstance(r, _CI):
+                fam.add(r)
+                fam.update(r.all_subclasses())
+        if not fam:
+            continue
+        if not any(c in fam for c in carriers):
+            continue  # a test about another class family (e.g. CompactEncryption)
+        missing = [c.name for c in carriers if c not in fam]
+        if missing:
+            return f"`{norm(t.ast)}` excludes {missing}"
+    return None
+
